@@ -56,3 +56,14 @@ func walkWrong(sample []byte) int {
 	}
 	return n
 }
+
+// W-TRUNC: a value narrowed for a 16-bit field and reused where the full value is needed.
+type audioEntry struct {
+	SampleRate uint16
+	Frequency  int
+}
+
+func truncReuse(samplingFrequency int) audioEntry {
+	sr := uint16(samplingFrequency)
+	return audioEntry{SampleRate: sr, Frequency: int(sr)}
+}
